@@ -112,6 +112,9 @@ class HCandle:
         if name == "tag":
             yield st, TagV(cs.get("tag", self.i))
             return
+        if name == "clean_values":
+            yield st, CleanView(self.store, self.i)
+            return
         if name in CANDLE_METHODS:
             fn = CANDLE_METHODS[name]
 
@@ -143,6 +146,38 @@ class HCandle:
             yield st
             return
         raise Unsupported(f"heap candle attribute store {name}")
+
+
+class CleanView:
+    """candle.clean_values of a heap candle: the raw values saved by save_clean_values (present iff `clean`)"""
+
+    pyclass = "dict"
+    KEYS = {"open": "c_open", "high": "c_high", "low": "c_low", "close": "c_close", "volume": "c_volume"}
+
+    def __init__(self, store, i):
+        self.store, self.i = store, i
+
+    def truthy(self):
+        raise Unsupported("truthiness of clean_values on the heap model")
+
+    def getattr(self, name, ex, st, node):
+        from .exec import Builtin
+
+        if name != "get":
+            raise Unsupported(f"clean_values.{name}")
+
+        def get(ex, st_, args, kwargs, node_):
+            cs = st_.heap[self.store.oid]
+            key = args[0]
+            if key not in self.KEYS:
+                raise Unsupported(f"clean_values.get({key!r})")
+            default = args[1] if len(args) > 1 else None
+            if default is None:
+                raise Unsupported("clean_values.get without a numeric default")
+            t = z3.If(cs.get("clean", self.i), cs.get(self.KEYS[key], self.i), to_real_term(default))
+            yield st_, SFloat(t)
+
+        yield st, Builtin("clean_values.get", get)
 
 
 def tag_code(s):
